@@ -568,7 +568,7 @@ class Built(Case):
         self.load_order = list(self.named)
 
 
-PRELUDES = ['wrong-key', 'clash-child', 'backend-only', 'timetype', 'numpy-count', 'nested-timetype']
+PRELUDES = ['wrong-key', 'clash-child', 'backend-only', 'timetype', 'nested-timetype']
 
 
 class AfterFailure(Case):
@@ -982,7 +982,9 @@ def witness(name: str):
         return [P.ConstantPT(TimeType.from_fraction(3, 2), {'A': 1}, identifier='c')], [{}]
     if name == 'numpy_count':
         import numpy
-        return [P.RepetitionPT(P.ConstantPT(1, {'A': 1}), numpy.int64(3), identifier='r')], [{}]
+        return [P.RepetitionPT(P.ConstantPT(1, {'A': 'i'}), numpy.int64(3), identifier='r'),
+                P.ForLoopPT(P.ConstantPT(1, {'A': 'i'}, measurements=[('m', numpy.int64(0), numpy.int32(1))]), 'i',
+                            (numpy.int32(0), numpy.int64(4), numpy.int16(2)), identifier='l')], [{'i': 1}]
     if name == 'abstract_empty_declarations':
         a = P.AbstractPT('abs', defined_channels={'A'}, parameter_names=set(), measurement_names=set())
         b = P.AbstractPT('abs2', integral={}, parameter_names=set())
@@ -998,7 +1000,9 @@ def witness(name: str):
                                                                     'a + 1 <= d**2 + 5000'])], \
                [{'a': 1, 'b': 3, 'c': 1, 'd': 1.5}, {'a': 1, 'b': 0, 'c': 1, 'd': 1.5}, {'a': 1, 'b': 3, 'c': 2, 'd': 1.5}]
     if name == 'decided_constraint':
-        return [P.FunctionPT('a*t', 'd', 'A', parameter_constraints=['a == a'], identifier='f')], [{'a': 1, 'd': 1}]
+        return [P.FunctionPT('a*t', 'd', 'A', parameter_constraints=['a == a', 'Eq(d, d)'], identifier='f'),
+                P.SequencePT(P.FunctionPT('a*t', 'd', 'A'), parameter_constraints=['Eq(d, d + 1)'], identifier='never')], \
+               [{'a': 1, 'd': 1}]
     if name == 'range_hash_collision':
         body = lambda: P.ConstantPT('d0', {'A': 'i*v0'})
         return [P.ForLoopPT(body(), 'i', ('n0 + 7', 0, -1), identifier='down1'),
@@ -1519,8 +1523,7 @@ def known_findings(ctx: core.Ctx):
     """replay the witnesses of the open findings; print the KNOWN-FINDING line while they reproduce"""
     listed = {kf.get('finding'): kf for kf in ctx.findings.for_property('C10')}
     for fid, names in (('PF-C10b', ['derived_float', 'nested_mapping_float']), ('PF-C10c', ['int_channel']),
-                       ('PF-C10f', ['timetype_duration']), ('PF-C10g', ['numpy_count']),
-                       ('PF-C10h', ['decided_constraint'])):
+                       ('PF-C10f', ['timetype_duration'])):
         for name in names:
             with warnings.catch_warnings():
                 warnings.simplefilter('ignore')
